@@ -39,7 +39,7 @@ def keywords():
 
 def make_ident(rng, base, classes=None):
     """returns (spelled, bare)"""
-    cls = rng.choice(classes or ["lower", "upper", "mixed", "dq", "bt", "br", "dq", "br", "kw_dq", "kw_bt", "kw_br", "space_dq"])
+    cls = rng.choice(classes or ["lower", "upper", "mixed", "dq", "bt", "br", "dq", "br", "kw_dq", "kw_bt", "kw_br", "space_dq", "underscore", "nested", "digit"])
     if cls == "lower":
         return base.lower(), base.lower()
     if cls == "upper":
@@ -54,6 +54,17 @@ def make_ident(rng, base, classes=None):
         a, b = DELIMS[cls[3:]]
         name = rng.choice(KW_CONTENT) + "_" + base[-3:] if rng.random() < 0.5 else rng.choice(KW_CONTENT) + base[-2:]
         return a + name + b, name
+    if cls == "underscore":     # delimited, with underscores at the ends: only the delimiters may go
+        a, b = DELIMS[rng.choice(["dq", "bt", "br"])]
+        name = rng.choice(["_", "__"]) + base + rng.choice(["_", "__", ""])
+        return a + name + b, name
+    if cls == "nested":         # a second delimiter pair inside the outer one: exactly one pair is stripped
+        name = rng.choice(["[%s]", "`%s`"]) % base
+        return '"' + name + '"', name
+    if cls == "digit":          # delimited name starting with a digit / containing punctuation
+        a, b = DELIMS[rng.choice(["dq", "br"])]
+        name = rng.choice(["1", "9_", "42"]) + base
+        return a + name + b, name
     if cls == "space_dq":
         name = base[:3] + " " + base[3:]
         return '"' + name + '"', name
@@ -65,13 +76,19 @@ ROLES = ["S", "T", "A", "B", "C", "CN", "UQ", "CK", "IX", "FK", "RT", "RC", "RS"
 
 def gen_script(rng, classes=None):
     ids = {}
+    seen = set()
     for j, role in enumerate(ROLES):
-        base = "%s%sx%d" % (rng.choice(["My", "Col", "Tab", "Zq", "Nm"]), role.capitalize(), rng.randint(10, 99))
-        ids[role] = make_ident(rng, base, classes)
+        while True:
+            base = "%s%sx%d" % (rng.choice(["My", "Col", "Tab", "Zq", "Nm"]), role.capitalize(), rng.randint(10, 99))
+            ident = make_ident(rng, base, classes)
+            if ident[1].lower() not in seen and not any(ident[1].lower() in o or o in ident[1].lower() for o in seen):
+                break
+        seen.add(ident[1].lower())
+        ids[role] = ident
     g = {k: v[0] for k, v in ids.items()}
     ddl = (
         "CREATE TABLE {S}.{T} (\n  {A} int NOT NULL,\n  {B} varchar(10) REFERENCES {RS}.{RT} ({RC}),\n  {C} date,\n  {D} {S}.{TY} NOT NULL,\n"
-        "  CONSTRAINT {CN} PRIMARY KEY ({A}, {B}),\n  CONSTRAINT {UQ} UNIQUE ({B}, {C}),\n  CONSTRAINT {CK} CHECK ({A} > 0),\n"
+        "  CONSTRAINT {CN} PRIMARY KEY ({A}, {B}),\n  CONSTRAINT {UQ} UNIQUE ({B}, {C}, {A}, {D}),\n  CONSTRAINT {CK} CHECK ({A} > 0),\n"
         "  FOREIGN KEY ({C}) REFERENCES {RT} ({RC}) ON DELETE CASCADE\n);\n"
         "CREATE UNIQUE INDEX {IX} ON {S}.{T} ({A} ASC, {B} DESC);\n"
         "ALTER TABLE {S}.{T} ADD CONSTRAINT {FK} FOREIGN KEY ({A}) REFERENCES {RS}.{RT} ({RC});\n"
@@ -94,7 +111,7 @@ def expected_positions(g):
         (("0", "columns", 3, "type"), g["S"] + "." + g["TY"]),
         (("0", "primary_key"), [g["A"], g["B"]]),
         (("0", "constraints", "primary_keys", 0, "constraint_name"), g["CN"]), (("0", "constraints", "primary_keys", 0, "columns"), [g["A"], g["B"]]),
-        (("0", "constraints", "uniques", 0, "constraint_name"), g["UQ"]), (("0", "constraints", "uniques", 0, "columns"), [g["B"], g["C"]]),
+        (("0", "constraints", "uniques", 0, "constraint_name"), g["UQ"]), (("0", "constraints", "uniques", 0, "columns"), [g["B"], g["C"], g["A"], g["D"]]),
         (("0", "constraints", "checks", 0, "constraint_name"), g["CK"]), (("0", "constraints", "checks", 0, "statement"), g["A"] + " > 0"),
         (("0", "index", 0, "index_name"), g["IX"]), (("0", "index", 0, "columns"), [g["A"], g["B"]]),
         (("0", "index", 0, "detailed_columns", "*name"), [g["A"], g["B"]]),
@@ -283,7 +300,7 @@ def run_shard(ctx):
     for j in range(ctx.budget(700, 15000)):
         classes = None
         if j % 5 == 0:
-            classes = [rng.choice(["lower", "upper", "mixed", "dq", "bt", "br", "kw_dq", "kw_bt", "kw_br", "space_dq"])]
+            classes = [rng.choice(["lower", "upper", "mixed", "dq", "bt", "br", "kw_dq", "kw_bt", "kw_br", "space_dq", "underscore", "nested", "digit"])]
         case = gen_script(rng, classes)
         check_case(ctx, case)
         if j == 0:
